@@ -54,6 +54,8 @@ def main():
             print(c, "exit", rc, "|", " | ".join(lines[:4])[:600])
     finally:
         sh("git -C /repo checkout -- .")
+        # evidence written while the seeded change was applied does not describe the unchanged tree: put the committed files back
+        sh("git -C %s checkout -- evidence" % VERIF)
     json.dump(meta, open(os.path.join(out, "meta.json"), "w"), indent=1)
     return 0
 
